@@ -20,3 +20,5 @@ TIMEOUT_MS = {'quick': 20000, 'thorough': 120000}
 MUSTFAIL_PER_FN = {'quick': 1, 'thorough': 4}
 
 FUNCTIONS = FUNCTIONS + [M + '__init__', N + 'assert_valid_input']
+
+FUNCTIONS = FUNCTIONS + [M + 'match_nth', M + 'match_nth_tag_type']
